@@ -79,7 +79,7 @@ def run(tier):
     for inv in res.invariant_violations:
         chk.violation("spec:" + inv, {"model": "MC_Relations", "invariant": inv}, {"tlc": res.trace_text()}, "")
     cases, meta = [], {}
-    nprob = 14 if tier == "quick" else 160
+    nprob = 16 if tier == "quick" else 160
     for k in range(nprob):
         measure = ["sad", "census", "ssd", "zncc"][k % 4]
         win = 3 if measure in ("census", "zncc") else [1, 3][k % 2]
@@ -87,9 +87,10 @@ def run(tier):
         R_, C_ = int(rng.randint(12, 21)), int(rng.randint(30, 61))
         a = int(rng.randint(-3, 1))
         b = a + int(rng.randint(1, 4))
-        L = rng.randint(0, 6, size=(R_, C_)).astype(np.float32)
+        vmax = int([6, 256, 4096, 65536][(k // 4) % 4])      # 3-bit ... 16-bit integer radiometry
+        L = rng.randint(0, vmax, size=(R_, C_)).astype(np.float32)
         Rt = np.roll(L, int(rng.randint(a, b + 1)), axis=1)
-        Rt = np.where(rng.rand(R_, C_) < 0.3, rng.randint(0, 6, size=(R_, C_)), Rt).astype(np.float32)
+        Rt = np.where(rng.rand(R_, C_) < 0.3, rng.randint(0, vmax, size=(R_, C_)), Rt).astype(np.float32)
         if k % 3 == 0:
             mL = (rng.rand(R_, C_) < 0.03) * rng.choice([1, 2], size=(R_, C_))
             mR = (rng.rand(R_, C_) < 0.03) * rng.choice([1, 2], size=(R_, C_))
@@ -99,7 +100,7 @@ def run(tier):
         cfg = lambda: {"pipeline": {nm: dict(c) for nm, c in steps}}   # noqa: E731
         rr, rc, m = radii(steps, R_, C_)
         ext = max(abs(a), abs(b))
-        feat = {"measure": measure, "win": win, "subpix": s, "pipeline": [nm for nm, _ in steps], "interval": [a, b], "shape": [R_, C_],
+        feat = {"measure": measure, "win": win, "subpix": s, "pipeline": [nm for nm, _ in steps], "interval": [a, b], "shape": [R_, C_], "radiometry_bits": int(np.log2(vmax)),
                 "cross_check": m == 2, "refinement": any(nm.startswith("refinement") for nm, _ in steps)}
         try:
             lw, _, _ = dp.run_pipeline(*crop_ds(L, Rt, mL, mR, (a, b), 0, R_, 0, C_), cfg())
@@ -153,7 +154,7 @@ def run(tier):
         for clause in v["failed"]:
             chk.violation(mm["relation"] + ":" + clause,
                           {"relation": mm["relation"], "array": clause, "cross_check": mm["cross_check"],
-                           "measure": mm["measure"], "cbca": "aggregation" in mm["pipeline"],
+                           "measure": mm["measure"], "cbca": "aggregation" in mm["pipeline"], "radiometry_bits": mm["radiometry_bits"],
                            "half_pixel_disparities": bool(mm["subpix"] > 1 or mm["refinement"]), "odd_column_offset": bool(mm.get("col_parity", 0))},
                           {"meta": mm, "detail": v["detail"]}, f"{cid}: {clause} {v['detail']} {mm}")
     chk.extra["cone_interior_pixels_compared"] = compared
